@@ -981,6 +981,22 @@ func (o *ovsdbClient) monitor(ctx context.Context, cookie MonitorCookie, reconne
 	var err error
 	var tableUpdates interface{}
 
+	// Notifications that arrive from now on may concern rows of the initial
+	// contents of this monitor: defer them until those are in the cache
+	db.cacheMutex.Lock()
+	wasDeferring := db.deferUpdates
+	db.deferUpdates = true
+	db.cacheMutex.Unlock()
+	defer func() {
+		db.cacheMutex.Lock()
+		defer db.cacheMutex.Unlock()
+		if db.deferUpdates && !wasDeferring {
+			// the monitor could not be set up: go back to applying updates
+			db.deferUpdates = false
+			_ = o.applyDeferredUpdates(db)
+		}
+	}()
+
 	var lastTransactionFound bool
 	switch monitor.Method {
 	case ovsdb.MonitorRPC:
@@ -1054,26 +1070,43 @@ func (o *ovsdbClient) monitor(ctx context.Context, cookie MonitorCookie, reconne
 
 	// populate any deferred updates
 	db.deferUpdates = false
-	for _, update := range db.deferredUpdates {
+	lastTxnID, err := o.applyDeferredUpdatesLocked(db)
+	if len(lastTxnID) > 0 {
+		db.monitors[cookie.ID].LastTransactionID = lastTxnID
+	}
+	return err
+}
+
+// applyDeferredUpdates applies the updates that were deferred, in the order
+// they arrived. Must be called with the cache lock held.
+func (o *ovsdbClient) applyDeferredUpdates(db *database) error {
+	_, err := o.applyDeferredUpdatesLocked(db)
+	return err
+}
+
+func (o *ovsdbClient) applyDeferredUpdatesLocked(db *database) (string, error) {
+	var err error
+	lastTxnID := ""
+	deferred := db.deferredUpdates
+	// clear deferred updates for next time
+	db.deferredUpdates = make([]*bufferedUpdate, 0)
+	for _, update := range deferred {
 		if update.updates != nil {
 			if err = db.cache.Populate(*update.updates); err != nil {
-				return err
+				return lastTxnID, err
 			}
 		}
 
 		if update.updates2 != nil {
 			if err = db.cache.Populate2(*update.updates2); err != nil {
-				return err
+				return lastTxnID, err
 			}
 		}
 		if len(update.lastTxnID) > 0 {
-			db.monitors[cookie.ID].LastTransactionID = update.lastTxnID
+			lastTxnID = update.lastTxnID
 		}
 	}
-	// clear deferred updates for next time
-	db.deferredUpdates = make([]*bufferedUpdate, 0)
-
-	return err
+	return lastTxnID, err
 }
 
 // Echo tests the liveness of the OVSDB connetion
